@@ -201,6 +201,46 @@ def random_macro(r, idx, kind):
     return None
 
 
+def wide_macro(r, idx, kind):
+    """a macro with 11..26 slots whose body uses two-digit slot numbers ($10, $17, $23 ...); the uses give every slot a
+    filler of its own, so a body that takes the tokens of another slot is visible in the stream and in the values"""
+    for _ in range(30):
+        n = r.randint(11, 26)
+        sep = r.choice([None, None, ",", r.choice(OPS)])
+        pat = [("lit", r.choice(WORDS) + str(idx))]
+        slots = []
+        for i in range(n):
+            s = r.choice(["ID", "ID", "INT", "V"])
+            if i and sep and (sep != "," or r.random() < 0.8):
+                pat.append(("lit", sep))
+            pat.append(("slot", s))
+            slots.append(s)
+        if r.random() < 0.5:
+            pat.append(("lit", r.choice(WORDS) + str(idx)))
+        kinds = [SLOT_KIND[p[1]] if p[0] == "slot" else _kind_of_literal(p[1]) for p in pat]
+        if not patterns.deterministic(kinds):
+            continue
+        ids = [i for i, s in enumerate(slots) if s == "ID"]
+        high = [i for i in range(10, n)]
+        if kind == "value":
+            a = r.choice(high)
+            body = "$%d" % a if r.random() < 0.5 else "RUN %s WITH $%d, $%d END" % (r.choice(["add", "sub", "mul"]), a, r.randrange(n))
+        else:
+            if not ids:
+                continue
+            parts = []
+            for _k in range(r.randint(1, 4)):
+                parts.append("$%d := $%d" % (r.choice(ids), r.choice(high) if r.random() < 0.7 else r.randrange(n)))
+            hid = [i for i in ids if i >= 10]
+            if hid and r.random() < 0.6:
+                parts.append("$%d := %d" % (r.choice(hid), r.randint(5, 9)))
+            body = " ; ".join(parts)
+        prio = r.choice([0, 7, 15])
+        text = "DEFINE %s%s AS %s END DEFINE" % ("PRIO %d " % prio if prio else "", " ".join(SLOT_TEXT[p[1]] if p[0] == "slot" else p[1] for p in pat), body)
+        return {"text": text, "pat": pat, "kind": kind, "slots": slots, "wide": True}
+    return None
+
+
 def use_macro(r, m, vars_, depth=0):
     """token list of one use of macro m"""
     toks = []
@@ -242,11 +282,18 @@ def random_macro_program(r):
         m = random_macro(r, i, r.choice(["value", "stmt"]))
         if m:
             ms.append(m)
+    wide = None
+    if r.random() < 0.2:
+        wide = wide_macro(r, 9, r.choice(["value", "stmt"]))
+        if wide:
+            ms.append(wide)
     lines = [[v, ":=", str(r.randint(0, 4)), ";"] for v in r.sample(VARS, 3)]
+    if wide:
+        lines = [[v, ":=", str(k + 1), ";"] for k, v in enumerate(VARS)]
     n = r.randint(2, 6)
     for i in range(n):
         if ms and r.random() < 0.75:
-            m = r.choice(ms)
+            m = wide if wide and i == 0 else r.choice(ms)
             if m["kind"] == "value":
                 l = [r.choice(VARS), ":="] + use_macro(r, m, VARS)
             else:
